@@ -1,109 +1,186 @@
+// Command c17 binds spec/query/PromCursor.tla and spec/query/Selector.tla to the real reader code:
+//
+//	c17 cursor  -ref cursor_ref.json -impl cursor_impl.json -out res.json [-cases cand.json]
+//	    replays every (timestamp array, call sequence) on the real model.Series iterator; the expected returns are
+//	    the TLC-generated contract table (RefStep of PromCursor.tla)
+//	c17 select  -cases sel_cases.json -out res.json -seed N [-http K]
+//	    concretises the TLC-enumerated (series database, matcher set) cases, stores the series (time_series,
+//	    samples_v3; the real materialized views derive the label index) and runs the REAL CLokiQuerier.Select
+//	    (and the Prometheus HTTP routes) over chsql
+//	c17 prof    -cases prof_cases.json -out res.json -seed N
+//	    the same through the Pyroscope routes (Series, LabelValues, LabelNames, SelectSeries)
+//	c17 promql  -out res.json -seed N -n K
+//	    the vendored Prometheus engine over the real qryn Queryable versus over a real Prometheus TSDB
+//	    (util/teststorage) holding the same samples
 package main
 
 import (
-	"bytes"
-	"context"
 	"encoding/json"
+	"flag"
 	"fmt"
-	"net/http/httptest"
-	"net/url"
+	"io"
 	"os"
-	"time"
+	"sort"
+	"strings"
 
+	clconfig "github.com/metrico/cloki-config"
+	"github.com/metrico/cloki-config/config"
+	rconfig "github.com/metrico/qryn/reader/config"
 	"github.com/metrico/qryn/reader/model"
-	"github.com/metrico/qryn/reader/service"
-	"github.com/prometheus/prometheus/model/labels"
-	"github.com/prometheus/prometheus/storage"
-	"verif/harness/e2e"
+	rlogger "github.com/metrico/qryn/reader/utils/logger"
+	"verif/harness/chbridge"
+	"verif/harness/fakesql"
+	"verif/harness/store"
 )
 
+var realStdout = os.Stdout
+
 func main() {
-	w, err := e2e.New(e2e.Options{})
+	if len(os.Args) < 2 {
+		fmt.Fprintln(os.Stderr, "usage: c17 cursor|select|prof|promql ...")
+		os.Exit(2)
+	}
+	// the reader prints SQL and debug lines to stdout: silence it, results go to files
+	if dn, err := os.OpenFile(os.DevNull, os.O_WRONLY, 0); err == nil && os.Getenv("C17_VERBOSE") == "" {
+		os.Stdout = dn
+	}
+	rlogger.Logger.SetOutput(io.Discard)
+	cmd := os.Args[1]
+	fs := flag.NewFlagSet(cmd, flag.ExitOnError)
+	var err error
+	switch cmd {
+	case "cursor":
+		err = cursorMain(fs, os.Args[2:])
+	case "select":
+		err = selectMain(fs, os.Args[2:])
+	case "prof":
+		err = profMain(fs, os.Args[2:])
+	case "promql":
+		err = promqlMain(fs, os.Args[2:])
+	default:
+		err = fmt.Errorf("unknown subcommand %s", cmd)
+	}
 	if err != nil {
-		panic(err)
+		fmt.Fprintln(os.Stderr, "c17:", err)
+		os.Exit(2)
 	}
-	defer w.Close()
-	day := time.Date(2023, 11, 14, 0, 0, 0, 0, time.UTC)
-	base := day.Add(10 * time.Hour)
-	must(w.Store.Insert("time_series", []string{"type", "date", "fingerprint", "labels", "name"}, [][]any{
-		{uint8(2), day, uint64(7), `{"__name__":"up","a":"x"}`, ""},
-		{uint8(2), day, uint64(8), `{"__name__":"up","a":"xy","b":"q"}`, ""},
-		{uint8(1), day, uint64(9), `{"__name__":"up","a":"x"}`, ""},
-	}))
-	var rows [][]any
-	for i := 0; i < 5; i++ {
-		for _, fp := range []uint64{7, 8, 9} {
-			tp := uint8(2)
-			if fp == 9 {
-				tp = 1
-			}
-			rows = append(rows, []any{tp, fp, base.Add(time.Duration(i) * time.Second).UnixNano(), "", float64(i) + float64(fp)})
-		}
-	}
-	must(w.Store.Insert("samples_v3", []string{"type", "fingerprint", "timestamp_ns", "string", "value"}, rows))
-	svc := &service.CLokiQueriable{ServiceData: model.ServiceData{Session: w.SQL.Registry("")}}
-	q, err := svc.SetOidAndDB(context.Background()).Querier(context.Background(), 0, 0)
-	must(err)
-	hints := &storage.SelectHints{Start: base.UnixMilli() - 1000, End: base.UnixMilli() + 10000, Step: 0}
-	ss := q.Select(true, hints, labels.MustNewMatcher(labels.MatchRegexp, "a", "x"), labels.MustNewMatcher(labels.MatchNotEqual, "b", "zz"))
-	for ss.Next() {
-		s := ss.At()
-		fmt.Println("series", s.Labels())
-		it := s.Iterator()
-		for it.Next() {
-			fmt.Println(it.At())
-		}
-	}
-	fmt.Println("err", ss.Err())
-	for _, e := range w.Bridge.Drain() {
-		fmt.Println(e.Err, e.Rows, e.SQL)
-	}
-	v := url.Values{}
-	v.Set("query", `up{a=~"x.*"}`)
-	v.Set("time", fmt.Sprint(base.Unix()+4))
-	fmt.Println(w.Get("/api/v1/query?" + v.Encode()))
-	v = url.Values{}
-	v.Set("query", `rate(up[3s])`)
-	v.Set("start", fmt.Sprint(base.Unix()))
-	v.Set("end", fmt.Sprint(base.Unix()+15))
-	v.Set("step", "1")
-	fmt.Println(w.Get("/api/v1/query_range?" + v.Encode()))
-	v = url.Values{}
-	v.Add("match[]", `up{a="x"}`)
-	v.Set("start", fmt.Sprint(base.Unix()))
-	v.Set("end", fmt.Sprint(base.Unix()+15))
-	fmt.Println(w.Get("/api/v1/series?" + v.Encode()))
-	fmt.Println(w.Get("/api/v1/label/a/values?" + v.Encode()))
-	fmt.Println(w.Get("/api/v1/labels?" + v.Encode()))
-	for _, e := range w.Bridge.Drain() {
-		fmt.Println(e.Err, e.Rows, e.SQL)
-	}
-	// profiles
-	must(w.Store.Insert("profiles_input", []string{"timestamp_ns", "type", "service_name", "sample_types_units", "period_type", "period_unit", "tags", "duration_ns", "payload_type", "payload", "values_agg", "tree", "functions"},
-		[][]any{{uint64(base.UnixNano()), "process_cpu", "svc", []any{[]any{"cpu", "nanoseconds"}, []any{"samples", "count"}}, "cpu", "nanoseconds", []any{[]any{"pod", "p1"}}, uint64(10), "0", "x",
-			[]any{[]any{"cpu", int64(5), int32(1)}, []any{"samples", int64(7), int32(1)}}, []any{}, []any{}},
-			{uint64(base.UnixNano()), "memory", "svc2", []any{[]any{"alloc", "bytes"}}, "space", "bytes", []any{[]any{"pod", "p12"}}, uint64(10), "0", "x",
-				[]any{[]any{"alloc", int64(5), int32(1)}}, []any{}, []any{}}}))
-	post := func(path string, body any) {
-		b, _ := json.Marshal(body)
-		req := httptest.NewRequest("POST", path, bytes.NewReader(b))
-		req.Header.Set("Content-Type", "application/json")
-		fmt.Println(w.Do(req))
-	}
-	post("/querier.v1.QuerierService/Series", map[string]any{"matchers": []string{`{pod=~"p1"}`}, "start": base.UnixMilli() - 1000, "end": base.UnixMilli() + 1000})
-	post("/querier.v1.QuerierService/Series", map[string]any{"matchers": []string{`{__sample_type__!="cpu"}`}, "start": base.UnixMilli() - 1000, "end": base.UnixMilli() + 1000})
-	post("/querier.v1.QuerierService/LabelNames", map[string]any{"matchers": []string{`{pod="p1"}`}, "start": base.UnixMilli() - 1000, "end": base.UnixMilli() + 1000})
-	post("/querier.v1.QuerierService/LabelValues", map[string]any{"name": "pod", "matchers": []string{`{service_name="svc"}`}, "start": base.UnixMilli() - 1000, "end": base.UnixMilli() + 1000})
-	post("/querier.v1.QuerierService/SelectSeries", map[string]any{"profileTypeID": "process_cpu:cpu:nanoseconds:cpu:nanoseconds", "labelSelector": `{pod="p1"}`, "step": 1, "groupBy": []string{"pod"}, "start": base.UnixMilli() - 1000, "end": base.UnixMilli() + 1000})
-	for _, e := range w.Bridge.Drain() {
-		fmt.Println(e.Err, e.Rows, e.SQL)
-	}
-	fmt.Println(w.Bridge.Unsupported)
-	_ = os.Stdout
 }
 
-func must(err error) {
+func writeJSON(path string, v any) error {
+	b, err := json.MarshalIndent(v, "", " ")
 	if err != nil {
-		panic(err)
+		return err
 	}
+	return os.WriteFile(path, b, 0o644)
+}
+
+func readJSON(path string, v any) error {
+	b, err := os.ReadFile(path)
+	if err != nil {
+		return err
+	}
+	return json.Unmarshal(b, v)
+}
+
+// ---- a reader-only world: the store (real DDL + materialized views on chsql) behind the reader's SQL session ----
+
+type world struct {
+	St     *store.Store
+	Bridge *chbridge.Bridge
+	SQL    *fakesql.DB
+	Reg    model.IDBRegistry
+}
+
+var worldSeq int
+
+func newWorld() (*world, error) {
+	st, err := store.New()
+	if err != nil {
+		return nil, err
+	}
+	if rconfig.Cloki == nil {
+		cfg := config.ClokiBaseSettingServer{}
+		cfg.FingerPrintType = 1
+		cfg.SYSTEM_SETTINGS.MetricsMaxSamples = 50000000
+		rconfig.Cloki = &clconfig.ClokiConfig{Setting: &cfg}
+	}
+	w := &world{St: st, Bridge: chbridge.New(st.DB)}
+	w.Bridge.Tables = []string{"time_series", "samples_v3", "time_series_gin", "metrics_15s", "tempo_traces", "tempo_traces_attrs_gin", "tempo_traces_kv", "settings", "profiles", "profiles_series", "profiles_series_gin", "profiles_series_keys"}
+	worldSeq++
+	w.SQL = fakesql.New(fmt.Sprintf("c17-%d-%d", os.Getpid(), worldSeq), w.Bridge.Handler())
+	w.Reg = w.SQL.Registry("")
+	return w, nil
+}
+
+// truncate empties the data tables between cases.
+func (w *world) truncate(tables ...string) error {
+	for _, t := range tables {
+		if err := w.St.DB.Truncate(t); err != nil {
+			return err
+		}
+	}
+	return nil
+}
+
+// drain forgets recorded statements, returns the chsql-unsupported ones and the failed ones.
+func (w *world) drain() (unsupported []string, failed []string, sqls []string) {
+	for _, e := range w.Bridge.Drain() {
+		sqls = append(sqls, e.SQL)
+		if e.Err != nil {
+			failed = append(failed, e.Err.Error()+" :: "+e.SQL)
+		}
+	}
+	unsupported = append(unsupported, w.Bridge.Unsupported...)
+	w.Bridge.Unsupported = nil
+	w.SQL.Drain()
+	return
+}
+
+// ---- mismatch bookkeeping: one example per structural signature + counts ----
+
+type finding struct {
+	Signature string `json:"signature"`
+	Count     int    `json:"count"`
+	Msg       string `json:"msg"`
+	Example   any    `json:"example"`
+}
+
+type findings struct {
+	m map[string]*finding
+}
+
+func (f *findings) add(sig, msg string, example func() any) {
+	if f.m == nil {
+		f.m = map[string]*finding{}
+	}
+	if x, ok := f.m[sig]; ok {
+		x.Count++
+		if len(msg) < len(x.Msg) { // keep the smallest example
+			x.Msg, x.Example = msg, example()
+		}
+		return
+	}
+	f.m[sig] = &finding{Signature: sig, Count: 1, Msg: msg, Example: example()}
+}
+
+func (f *findings) list() []*finding {
+	var keys []string
+	for k := range f.m {
+		keys = append(keys, k)
+	}
+	sort.Strings(keys)
+	res := []*finding{}
+	for _, k := range keys {
+		res = append(res, f.m[k])
+	}
+	return res
+}
+
+func sanitize(s string) string {
+	return strings.Map(func(r rune) rune {
+		if r == '|' || r == '\n' {
+			return '/'
+		}
+		return r
+	}, s)
 }
